@@ -213,6 +213,7 @@ void LVCalc(matrix *X,
     printf("######### Step %u\n", (unsigned int)step);
     step++;
     #endif
+    LSCI_VERIF_LOOP_HEAD(1, u_, t_old, NULL);
     /* Step 2: Compute a weight vector w = u'X/u'u   (NB.: w is size of X_t->col = (*X)->row ) */
     DVectorSet(w_, 0.f); /* Reset the w vector */
     DVectorMatrixDotProduct(X_, u_, w_);
@@ -290,6 +291,7 @@ void LVCalc(matrix *X,
         t_old->data[i] = t_->data[i];
     }
     else{
+      LSCI_VERIF_PRE_CONV(1, t_, t_old);
       if(calcConvergence(t_, t_old) < PLSCONVERGENCE){
         break;
       }
